@@ -172,6 +172,10 @@ func (c *Channel) ReadAll() ([]byte, error) {
 	default:
 	}
 
+	if c.readLoopExited.Load() {
+		return nil, util.ErrConnectionError
+	}
+
 	b := c.Q.DequeueAll()
 
 	if b == nil {
